@@ -116,3 +116,25 @@ Definition known_quote_ambiguity : program -> bool :=
   prog_exists (fun e => match e with
                         | ELit _ (LStr s) => starts_2q s || starts_2q (rev s) || zs_eqb s [34]
                         | _ => false end).
+
+(* type inference: the variable of a for! loop or of a list pattern has no fixed type; arithmetic or a comparison with a
+   Float operand unifies it with Float, and every later use is wrapped in Float: `for! 3..<4, v => print!(1.5 + v, v)`
+   prints 4.5 3.0 where the program means 4.5 3  (lower.rs / context: properties C02/C34) *)
+Fixpoint free_typed_vars (s : stmt) : list Z :=
+  let blk := fix blk (ss : list stmt) : list Z := match ss with [] => [] | x :: r => free_typed_vars x ++ blk r end in
+  match s with
+  | SFor x _ body => x :: blk body
+  | SPat true ids _ => ids
+  | SIf _ th _ el => blk th ++ blk el
+  | SWhile _ body => blk body
+  | SFun _ _ _ _ body => blk body
+  | _ => []
+  end.
+
+Definition known_float_unify (p : program) : bool :=
+  let vars := flat_map free_typed_vars p in
+  let is_free := fun e => match e with EVar _ x => existsb (Z.eqb x) vars | _ => false end in
+  let is_float := fun e => match wrap_of e with WFloat => true | _ => false end in
+  prog_exists (fun e => match e with
+                        | EBin _ _ a b | ECmp _ _ a b => (is_free a && is_float b) || (is_free b && is_float a)
+                        | _ => false end) p.
